@@ -266,6 +266,11 @@ def shrink(mod, plan, sched, cls, budget_runs=300, budget_s=40, known=None):
 
         return res if _same_class(res, cls, known) else None
 
+    if valid is not None and not valid(plan):
+        raise HarnessError('the generated plan is rejected by the check\'s '
+                           'own valid_plan (generator and validator '
+                           'disagree): %r' % (plan,))
+
     best = attempt(plan, sched)
 
     if best is None:
@@ -664,8 +669,10 @@ def main(argv=None):
             plan, sched, res, nruns = shrink(mod, fail['plan'], fail['sched'],
                                              cls, known=known)
         except HarnessError as exc:
-            print('HARNESS-ERROR check=%s seed=%s %s' %
-                  (check_name, fail['seed'], exc))
+            print('HARNESS-ERROR check=%s seed=%s %s\n  what the run had '
+                  'reported: %s %s' %
+                  (check_name, fail['seed'], exc, cls,
+                   str(v0.get('detail'))[:600]))
             return EXIT_HARNESS
 
         vmin = next((v for v in res['violations']
